@@ -14,11 +14,11 @@ structure XKey where
   childNum : Nat
   depth : Nat
   isPrivate : Bool
-deriving DecidableEq, Repr, Inhabited
+deriving DecidableEq, Repr, Inhabited, Hashable, BEq
 
 inductive Err | invalidSeedLen | unusableSeed | hardFromPublic | maxDepth | invalidChild | badPubKey
   | unknownHDKeyID | notPrivate | invalidKeyLen | badChecksum | badPath
-deriving DecidableEq, Repr
+deriving DecidableEq, Repr, Inhabited
 
 def N : Nat := Gen.c_N
 
